@@ -50,6 +50,7 @@ OPS: Dict[str, Any] = {
     "remove_reactions": _d("remove_reactions", sels=st.lists(_k, min_size=1, max_size=3), by=st.sampled_from(["obj", "id", "mixed"]),
                            orphans=st.booleans(), single=st.booleans(), via=st.sampled_from(["model", "model", "rxn"])),
     "readd": _d("readd", k=_k),
+    "detached_bounds": _d("detached_bounds", k=_k, b=_bnd),
     "add_metabolites": _d("add_metabolites", mets=st.lists(st.integers(0, N_MID - 1), min_size=1, max_size=3, unique=True), single=st.booleans()),
     "remove_metabolites": _d("remove_metabolites", sels=st.lists(_k, min_size=1, max_size=2), destructive=st.booleans(),
                              via=st.sampled_from(["model", "model", "met"])),
@@ -64,7 +65,7 @@ OPS: Dict[str, Any] = {
     "gene_state": _d("gene_state", gene=_k, how=st.sampled_from(["knock_out", "knock_out", "off", "on"])),
     "knock_out_model_genes": _d("knock_out_model_genes", genes=st.lists(_k, min_size=1, max_size=3), by=st.sampled_from(["obj", "id", "index"])),
     "remove_genes": _d("remove_genes", genes=st.lists(_k, min_size=1, max_size=2), remove_reactions=st.booleans(), by=st.sampled_from(["obj", "id"])),
-    "rename_genes": _d("rename_genes", pairs=st.lists(st.tuples(_k, st.integers(0, N_GID - 1)), min_size=1, max_size=2, unique_by=(lambda t: t[0], lambda t: t[1]))),
+    "rename_genes": _d("rename_genes", pairs=st.lists(st.tuples(_k, st.integers(0, N_GID - 1)), min_size=1, max_size=3, unique_by=lambda t: t[0])),
     "rename_rxn": _d("rename_rxn", rxn=_k, new=st.integers(0, N_RID - 1)),
     "rename_met": _d("rename_met", met=_k, new=st.integers(0, N_MID - 1)),
     "objective": _d("objective", kind=st.sampled_from(["rxn", "id", "index", "dict", "list", "coef", "coef"]), rxns=st.lists(_k, min_size=1, max_size=3),
@@ -101,7 +102,7 @@ OPS: Dict[str, Any] = {
 
 
 def history_strategy(max_ops: int = 30, names: Optional[List[str]] = None, weights: Optional[Dict[str, int]] = None,
-                     blocks: bool = True, block_weight: int = 4):
+                     blocks: bool = True, block_weight: int = 4, extra_inner=()):
     """Lists of ops; `block` ops are whole `with model:` blocks (enter, inner ops, exit) with optional nesting,
     an optional harness fault position (the block ends by an exception) and a propagate flag (the first inner
     op that raises ends the block, as an uncaught exception would)."""
@@ -110,7 +111,7 @@ def history_strategy(max_ops: int = 30, names: Optional[List[str]] = None, weigh
     if not blocks:
         top = base
     else:
-        inner_names = [n for n in names if n in REVERSIBLE]
+        inner_names = [n for n in names if n in REVERSIBLE or n in extra_inner]
         inner = op_strategy(inner_names, weights)
 
         def mk(children):
@@ -175,9 +176,11 @@ def user_view(user, model):
 class World:
     """The SUT side of a history."""
 
-    def __init__(self, model, user=None, known=()):
+    def __init__(self, model, user=None, known=(), extra_in_context=()):
         self.model = model
         self.known = frozenset(known)
+        self.extra_in_context = frozenset(extra_in_context)  # ops a property allows inside a block beyond REVERSIBLE
+        self.detached: List[Any] = []  # reaction objects taken out inside the currently open contexts
         self.excluded: Dict[str, int] = {}
         # explicitly added solver objects, tracked so that C01 can tell them from garbage
         self.user = user or {"vars": {}, "cons": {}, "opaque": False}
@@ -251,7 +254,7 @@ class World:
         name = op["op"]
         if name == "block":
             return self.run_block(op)
-        if self.depth() and name not in REVERSIBLE and name not in ("enter", "exit", "copy"):
+        if self.depth() and name not in REVERSIBLE and name not in ("enter", "exit", "copy") and name not in self.extra_in_context:
             out = "skipped:not-reversible-in-context"
         elif self.in_block and name in ("copy", "enter", "exit") and not op.get("_block"):
             out = "skipped:inside-block"
@@ -319,12 +322,24 @@ class World:
             else:
                 m.remove_reactions(picked, remove_orphans=op["orphans"])
         finally:
+            if self.depth():
+                self.detached.extend(r for r in objs if r.model is None)
             if not self.depth():  # inside a context the removal is undone on exit: the object comes back by itself
                 gone = [r for r in objs if r.model is None]
                 self.graveyard.extend(gone)
                 # the columns are deleted for good: user constraints lose these terms even if the object returns
                 for name, (lb, ub, terms) in list(self.user["cons"].items()):
                     self.user["cons"][name] = (lb, ub, [(r, c) for r, c in terms if all(r is not g for g in gone)])
+
+    def op_detached_bounds(self, op):
+        """Edit the bounds of a reaction object while it is outside the model (no context can record that)."""
+        pool = self.graveyard + self.detached
+        if not pool:
+            return "skipped:empty"
+        r = pool[op["k"] % len(pool)]
+        if r.model is not None:
+            return "skipped:attached"
+        r.bounds = tuple(op["b"])
 
     def op_readd(self, op):
         """Give a reaction object that remove_reactions took out back to the model (the same object)."""
@@ -463,7 +478,7 @@ class World:
         d = {}
         for k, new in op["pairs"]:
             old = self.pick(m.genes, k).id
-            if old not in d and GID[new] not in d.values() and GID[new] not in d and old not in d.values():
+            if old not in d and GID[new] not in d and old not in d.values():  # no chains (documented as undefined); two genes may share a target
                 d[old] = GID[new]
         rename_genes(m, d)
 
@@ -541,6 +556,7 @@ class World:
         self.user = user_remap(self.user, new)
         self.ctx_stack = []
         self.graveyard = []  # those objects belong to the history of the original
+        self.detached = []
         if new.problem.__name__.endswith("glpk_exact_interface"):
             self.exact_copy = True
 
@@ -568,6 +584,8 @@ class World:
             return "skipped:no-context"
         frame = self.ctx_stack.pop()
         self.pending_exit_frame = frame
+        if not self.ctx_stack:
+            self.detached = []
         self.model.__exit__(None, None, None)
         self.user = frame["user"]
 
